@@ -34,7 +34,7 @@ RULES = {
              'fresh clone of the member\'s sender (futures mpsc guarantees one slot per sender handle), not through one handle reused '
              'for the whole loop (about a hundred try_sends, the rest is dropped with a warning)',
     'C05.j': 'the catch-up labels each key with its LAST operation: the oplog query visits rotated files oldest first and the live file last '
-             '(C12.d) and inserts every record it reads unconditionally (C12.h), so a later record replaces an earlier one of the same key',
+             '(C12.d), inserts every record it reads unconditionally (C12.h), so a later record replaces an earlier one of the same key, and leaves the per-file search only after the forward scan (C12.k)',
     'C05.k': 'the node names itself with one Databases field in every node-to-node message (C15.g): the catch-up request `replicate-since '
              '<name>` must carry the name the primary registered, or the primary finds no such member and sends nothing',
 }
@@ -75,10 +75,10 @@ def run(ck, m):
         ck.undecided('C05.j', 'oplog-query', 'rules', 'C12.d / C12.h could not be evaluated: %s' % e)
     n_ = 0
     for o in tmp.obs:
-        if o['key'].endswith((':insert-unconditional', ':oldest-first-live-last')):
+        if o['key'].endswith((':insert-unconditional', ':oldest-first-live-last', ':search-left-only-after-the-scan')):
             n_ += 1
             ck.ob('C05.j', o['key'].split(':')[1], o['key'].split(':', 2)[2], o['verdict'] == 'discharged', o['what'], o['loc'], verdict=o['verdict'])
-    ck.floor('C05.j', n_, 2, 'last-record-wins rules of the oplog query')
+    ck.floor('C05.j', n_, 3, 'rules of the oplog query the catch-up depends on')
     # the node asks for its catch-up under the name the primary registered it with (C15.g, same field for every self-naming message)
     from props import C15
     C15.self_name_agrees(ck, m, rule='C05.k')
